@@ -144,6 +144,13 @@ static size_t good_position(parse_buffer * const b) { error e; e.json = b->conte
 static size_t bad_BND5_publish_early(parse_buffer * const b, size_t *end) { error e; e.json = b->content; e.position = b->offset; *end = e.position; if (e.position >= b->length) { e.position = (b->length > 0) ? (b->length - 1) : 0; } return 0; }
 static size_t good_clamp_then_publish(parse_buffer * const b, size_t *end) { error e; e.json = b->content; e.position = b->offset; if (e.position >= b->length) { e.position = (b->length > 0) ? (b->length - 1) : 0; } *end = e.position; return e.position; }
 
+/* absolute index into the content */
+static int bad_BND1_abs_index(parse_buffer * const b) { const unsigned char * const content = b->content; size_t end_index = b->offset + 1; while ((end_index <= b->length) && (content[end_index] != '\"')) { end_index++; } return (int)end_index; }
+static int good_abs_index(parse_buffer * const b) { const unsigned char * const content = b->content; size_t end_index = b->offset + 1; while ((end_index < b->length) && (content[end_index] != '\"')) { if (content[end_index] == '\\') { if ((end_index + 1) >= b->length) { return 0; } end_index++; } end_index++; } return (int)end_index; }
+/* hoisted limit */
+static int bad_BND2_limit(parse_buffer * const b) { const unsigned char *digits = NULL; size_t limit = 0; size_t i = 0; int n = 0; if (b->offset < b->length) { digits = buffer_at_offset(b); limit = b->length - b->offset + 1; } for (i = 0; i < limit; i++) { n += digits[i]; } return n; }
+static int good_limit(parse_buffer * const b) { const unsigned char *digits = NULL; size_t limit = 0; size_t i = 0; int n = 0; if (b->offset < b->length) { digits = buffer_at_offset(b); limit = b->length - b->offset; if (limit > 63) { limit = 63; } } for (i = 0; i < limit; i++) { n += digits[i]; } return n; }
+
 /* EFF7 */
 static void bad_EFF7_write(parse_buffer * const b) { if (can_access_at_index(b, 0)) { ((unsigned char*)b->content)[b->offset] = '\0'; } }
 
